@@ -4,7 +4,7 @@ import json, os
 ROOT = os.path.dirname(os.path.dirname(os.path.abspath(__file__)))
 
 TEXT = {
- "C01": ("seeded search over simulated runs: real Builder/Display/transports drive a MIPI-DCS controller model; decoded frame memory is compared with an independent placement reference after every call. Sampling over the product size x offset x orientation x entry point x transport, incl. 1x1 and 65535x65535 external models; a clean batch is evidence, not proof.", "9/C01"),
+ "C01": ("seeded search over simulated runs: real Builder/Display/transports drive a MIPI-DCS controller model; decoded frame memory is compared with an independent placement reference after every call. Sampling over the product size x offset x orientation x entry point x transport, incl. 1x1 and 65535x65535 external models, real panel geometries, restarts (release + init on the same simulated hardware), builder setter orders and by-reference interfaces; a clean batch is evidence, not proof.", "9/C01, 16"),
  "C02": ("seeded search with coordinates from a boundary distribution over i32 x i32 and rectangles in every relation to the display, both `batch` settings, checked and wrapping arithmetic builds; oracle: no panic, Ok, nothing outside the panel window or the framebuffer, in-bounds remainder exact.", "9/C02"),
  "C03": ("twin simulation: the same in-bounds stream through draw_iter and through set_pixel on identical simulated worlds; frame memories compared with each other and with the reference; stream shapes target the row/block capacities (49/50/51, 99/100/101, exact-fill and overflow blocks, trailing single-pixel rows).", "9/C03"),
  "C04": ("seeded search over rectangles in every relation to the display and self-indexing colour streams of all lengths; thorough tier additionally runs the workload against a shadow build in which the 16-bit-pointer take/nth helpers are the ones compiled.", "9/C04"),
@@ -15,7 +15,7 @@ TEXT = {
  "C09": ("small scope exhaustive ({0..7}^4 on 3x5 and 5x3) plus seeded boundary search on extreme framebuffers; the 'nothing touched' clause is read off the world's event log (pins, delay source, bus).", "9/C09"),
  "C10": ("seeded histories of set_orientation with drawing in between, compared with a freshly built twin on an identical simulated world (reported state, MADCTL latched by the controller, bus trace byte for byte, frame memory vs reference).", "9/C10"),
  "C11": ("complete enumeration of the option space at Interface level plus seeded runs on the real transports; oracle on controller state and virtual-time line when init returns.", "9/C11"),
- "C12": ("fault enumeration: for each sampled (configuration, call) every low-level operation index k of that call x every applicable fault kind is executed from scratch; error identity by unique payload, no further pin/bus operation, no panic, then recovery under the exact picture oracle. Sampled over configurations and calls, complete over k and kind.", "9/C12"),
+ "C12": ("fault enumeration: for each sampled (configuration, call incl. init of every model, every drawing entry point, TestImage, orientation/scroll/tearing/sleep/wake, restart) every low-level operation index k of that call x every applicable fault kind (pin error with and without level change; SPI error before / torn at one sampled cut / after delivery; Interface-call error) is executed from scratch; error identity by unique payload, no further pin/bus operation, no panic, then recovery under the exact picture, orientation and MADCTL oracles. Plus mixed histories with 0-3 faults and a retrying / non-retrying client. Sampled over configurations and calls, complete over k and kind.", "9/C12, 16"),
  "C13": ("seeded call histories on a virtual clock: driver flag vs reference vs controller sleep state after every call, 120 ms lower bounds read off the virtual time line; fault sub-mode for 'last successful'.", "9/C13"),
  "C16": ("seeded search with boundary values around the framebuffer height and the u16 limit on all built-in heights and heights 1/257/65535; oracle on the scroll registers the controller latched.", "9/C16"),
  "C17": ("pattern check over the unified timeline of reset-pin edges, delays and bus events of init on every built-in model x supported real transport x reset pin yes/no.", "9/C17"),
